@@ -1209,6 +1209,11 @@ class Interp(object):
         return None
 
     # ---- loops --------------------------------------------------------------------
+    def _fnpre(self, st):
+        # the state a loop contract refers to as "before this call's own bookkeeping": the function's pre-state, or
+        # -- when a callee may have re-entered -- the state it left behind (kept per path in the ghost store)
+        return st.ghost.get('fnpre') or self.fn_pre
+
     def _loopspec(self, node):
         key = (self.cur_func, getattr(node, '_loop_ordinal', None))
         spec = self.loopspecs.get(key)
@@ -1304,7 +1309,7 @@ class Interp(object):
         entry = st.fork()
         idx0 = IntV(0) if kind == 'forseq' else None
         # 1. invariant holds on entry
-        ctx = LoopCtx(self, st, entry, self.fn_pre, idx=idx0.term if idx0 else None, seq=seq, eid=eid, node=node)
+        ctx = LoopCtx(self, st, entry, self._fnpre(st), idx=idx0.term if idx0 else None, seq=seq, eid=eid, node=node)
         try:
             inv0 = spec.invariant(ctx)
         except Unsupported:
@@ -1334,7 +1339,7 @@ class Interp(object):
         else:
             self.havoc_heap(h)
         idx = fresh('i', INT) if kind == 'forseq' else None
-        ctx_h = LoopCtx(self, h, entry, self.fn_pre, idx=idx, seq=seq, eid=eid, node=node)
+        ctx_h = LoopCtx(self, h, entry, self._fnpre(h), idx=idx, seq=seq, eid=eid, node=node)
         if idx is not None:
             h.assume(idx >= 0, idx <= seq.length)
         for (nm, g) in spec.invariant(ctx_h):
@@ -1364,7 +1369,7 @@ class Interp(object):
             nextfn = seq.tag[1]
             for (s, item) in nextfn(self, h):
                 if item is SKIP:
-                    ctx2 = LoopCtx(self, s, entry, self.fn_pre, idx=None, seq=seq, eid=eid, node=node)
+                    ctx2 = LoopCtx(self, s, entry, self._fnpre(s), idx=None, seq=seq, eid=eid, node=node)
                     for (nm, g) in spec.invariant(ctx2):
                         self.obligations.append(Obligation('%s/%s@step' % (tag, nm), s.pc, g, kind='loop-step',
                                                            func=self.cur_func,
@@ -1396,7 +1401,7 @@ class Interp(object):
     def _loop_body(self, s, eid, node, spec, entry, tag, idx_next, seq, results):
         for (s2, o2) in self.exec_block(s, eid, node.body):
             if o2 is NEXT or o2 is CONTINUE:
-                ctx2 = LoopCtx(self, s2, entry, self.fn_pre, idx=idx_next, seq=seq, eid=eid, node=node)
+                ctx2 = LoopCtx(self, s2, entry, self._fnpre(s2), idx=idx_next, seq=seq, eid=eid, node=node)
                 for (nm, g) in spec.invariant(ctx2):
                     self.obligations.append(Obligation('%s/%s@step' % (tag, nm), s2.pc, g, kind='loop-step',
                                                        func=self.cur_func,
